@@ -452,8 +452,8 @@ class C06(Prop):
     id = "C06"
     title = "Quorum decisions follow the votes"
     fixed_prefix = 1
-    quick_budget = 3000
-    thorough_budget = 50000
+    quick_budget = 2600
+    thorough_budget = 40000
     extractors = ["E5-quorum", "E5-quorum-tables"]
     CB_KEYS = {"reached": "on_quorum_reached", "failed": "on_quorum_failed"}
     all_branches = (["gate"] + [f"{s}:{o}" for s in STRATS for o in ("permit", "block")] + ["threshold:raise"]
@@ -463,11 +463,17 @@ class C06(Prop):
         "weights, reliabilities and confidences of the correspondence are dyadic rationals; ballots whose exact "
         "Bayesian posterior is within 1e-6 of the threshold are dropped (float boundary), see skipped_float_boundary",
         "thresholds are non-negative (hypothesis of the soundness theorems; negative ones only run in the correspondence)",
-        "reliability updates, statistics, history, callbacks, timing and console output are not modelled; "
+        "timing, console output, agent_stats / success_rate and get_agent_rankings are not modelled (the statistics "
+        "counters, the capped history, reliability updates and which callback is handed the result are); "
         "weighted_score/confidence_score are floats and are not compared",
+        "the Python type that carries a number (int / bool / Fraction / Decimal / float or int subclass) is not part of "
+        "the model: its irrelevance is checked by correspondence and by the evaluated count table, not proved; exact ties "
+        "of a ratio strategy with a non-dyadic Fraction / Decimal threshold, and of WEIGHTED / CONFIDENCE with a non-dyadic "
+        "effective weight, are dropped like the Bayesian ties (rounding decides)",
     ]
     trusted_modelled = ["modelled, not verified: QuorumSensing.run_vote/_protein_to_vote/_aggregate_votes and the seven "
-                        "aggregators as Operon.Quorum.runVote; IEEE doubles replaced by exact rationals on a grid where "
+                        "aggregators as Operon.Quorum.runVote, the collection loop as collectLoop, the statistics / history "
+                        "as Ledger; IEEE doubles replaced by exact rationals on a grid where "
                         "both comparisons coincide"]
 
     def __init__(self):
@@ -890,7 +896,7 @@ class C06(Prop):
         cc += ["cfg majority none 2@F", "cfg threshold none 1@b", "cfg unanimous none 3@fs", "cfg weighted none 2@is"]
         for c in cc:
             lines = [c]
-            for tot in range(0, 8):
+            for tot in range(0, 7 if tier == "quick" else 8):
                 for p_ in range(0, tot + 1):
                     for idle in (0, 1):
                         if p_ + idle > tot or (idle and tot % 2):
